@@ -432,7 +432,7 @@ pub fn checks() -> Vec<Box<dyn Check>> {
             claims: claims_c13,
             gen: gen_c13,
             quick_runs: 600_000,
-            thorough_runs: 4_000_000,
+            thorough_runs: 2_500_000,
             rule: "seeded streams [0-3 requests] + one request whose body length is limit-1, limit, limit+1, limit+k, 2x, 3x+7 or 16 MiB for every opcode + [1-4 requests] + a dump of all keys, under item size limits 1 KiB..4 MiB; the simulator chooses exactly how many bytes are readable when the oversized header is parsed (0, 1, half-1, half, half+1, all-1, all, all + following requests, around the 4 KiB initial buffer) and cuts the remainder randomly; oracle: 0x03 for bodies above the limit, never for bodies within it, exactly body_length bytes discarded (the following requests are answered in order and correlated), store unchanged. non-trivial = more than one request; distinct = distinct event-log fingerprints",
         }),
         Box::new(ScnCheck {
